@@ -82,7 +82,49 @@ def direct_sweep(ld, N):
                 fails.append((n, k, None, f'new(range({n})).batch({B}).split({k}): the concatenated shards differ from the dataset, first at batch {bad}: got {flat[bad][:3] if bad < len(flat) else None}.., expected {whole[bad][:3] if bad < len(whole) else None}..'))
             elif sh1 != parts[-1]:
                 fails.append((n, k, k - 1, f'new(range({n})).batch({B}).shard({k},{k - 1}) != split({k})[{k - 1}]'))
+    # shards of DERIVED datasets (batches with and without drop_last, selections, concatenations, maps, items): the reference is what
+    # iterating the dataset delivers - every delivered example lands in exactly one shard, valid counts 1..n are accepted, others refused
+    for m in range(0, 13 if N <= 300 else 26):
+        for make, what in ((lambda d: d.batch(2), 'batch(2)'), (lambda d: d.batch(3, drop_last=True), 'batch(3, drop_last=True)'),
+                           (lambda d: d.batch(2, drop_last=True), 'batch(2, drop_last=True)'), (lambda d: d.batch(4, drop_last=True), 'batch(4, drop_last=True)'),
+                           (lambda d: d[1:], 'ds[1:]'), (lambda d: d.concatenate(d), 'concatenate(ds, ds)'), (lambda d: d.map(_same15), 'map'),
+                           (lambda d: d.batch(2).map(_same15), 'batch(2).map'), (lambda d: d.batch(5, drop_last=True).map(_same15)[::-1], 'batch(5, drop_last=True).map[::-1]')):
+            try:
+                ds = make(ld.new(list(range(m))))
+                whole = [repr(x) for x in ds]
+            except Exception:
+                continue
+            n = len(whole)
+            for k in range(-1, n + 3):
+                count += 1
+                try:
+                    parts = [[repr(x) for x in sh] for sh in ds.split(k)]
+                    refused = False
+                except ValueError:
+                    refused = True
+                except Exception as e:
+                    fails.append((m, k, None, f'new(range({m})).{what} ({n} examples).split({k}) raised {type(e).__name__}: {e}'[:300]))
+                    continue
+                if refused != (not 1 <= k <= n):
+                    fails.append((m, k, None, f'new(range({m})).{what} delivers {n} examples: split({k}) was {"refused" if refused else "accepted"}'))
+                    continue
+                if refused:
+                    continue
+                sizes = [len(p) for p in parts]
+                if [x for p in parts for x in p] != whole or len(parts) != k or max(sizes) - min(sizes) > 1:
+                    fails.append((m, k, None, f'new(range({m})).{what}.split({k}): shards {parts} do not partition the {n} delivered examples {whole} evenly'[:500]))
+                    continue
+                try:
+                    sh = [repr(x) for x in ds.shard(k, k - 1)]
+                except Exception as e:
+                    sh = f'raised {type(e).__name__}'
+                if sh != parts[-1]:
+                    fails.append((m, k, k - 1, f'new(range({m})).{what}.shard({k},{k - 1}) = {sh}, split({k})[{k - 1}] = {parts[-1]}'[:400]))
     return fails, count
+
+
+def _same15(x):
+    return x
 
 
 def coq_sweep(N):
